@@ -1,5 +1,9 @@
-"""C14 — both story loaders (serde_json / streaming tokenizer) build the same story."""
-import json, os, re
+"""C14 — both story loaders (serde_json / streaming tokenizer) build the same story.
+
+Strengthened twice against seeded changes: (1) the marker class (string tokens beginning with the characters the
+loaders strip or test); (2) the list-definition class (order of listDefs, bare item names shared by several LISTs:
+gen_list_program / gen_list_doc / list_probe_doc below)."""
+import json, os, random, re
 import vlib, gen_tables
 from props import common
 
@@ -21,6 +25,10 @@ ASSUMPTIONS = [
     "-0 (stream: Int 0, serde: Float -0.0) and integers outside i32 (stream: Float, serde loader: panic) are "
     "refuted in the model (Props/C14.v *_refuted); neither compiler emits such literals, so they are outside "
     "the property's quantifier and are reported as probes in the evidence, not as violations",
+    "a bare item name declared by several LISTs is rejected by the reference compiler but accepted by this one and "
+    "resolved at run time: the specified behaviour is 'the last list in the document order of listDefs wins' "
+    "(json_read_stream.rs, the reference runtime, Data/InkList.v single_item_cache); the default loader relies on "
+    "serde_json's Map keeping document order (feature preserve_order, which the workspace build and the harness enable)",
 ]
 
 SCRIPT = [["GLOBALTAGS"], ["CONT_MAX"], ["CHOOSE", 0], ["CONT_MAX"], ["CHOOSE", 1], ["CONT"], ["CONT_MAX"],
@@ -183,8 +191,243 @@ def gen_marker_doc(rng):
     return json.dumps(doc, ensure_ascii=False, separators=(",", ":"))
 
 
+# ------------------------------------------------------------------ the list-definition class
+# `listDefs` is the one part of a story document that is NOT a runtime object (the audit listing does not show
+# it) and whose ORDER is meaningful: ListDefinitionsOrigin::new fills the bare-item-name table list by list, a
+# later list replacing an earlier one, so an unqualified item name shared by several LISTs denotes the item of
+# the LAST list of the document (json_read_stream.rs reads listDefs front to back; Data/InkList.v
+# single_item_cache).  Both compilers write listDefs in declaration order and compile a bare item name to
+# {"VAR?": name}, resolved at run time through that table.  Reached (a) through the compiler, by programs with
+# several LISTs whose names are declared in arbitrary (not alphabetical, mixed-case) order and whose item names
+# are drawn from one small pool (so they collide), referring to items bare and qualified; (b) through
+# hand-written documents of the same shape; (c) for EVERY document of the quantifier that declares a list, by a
+# derived probe document with the same listDefs whose content prints, for each bare and each qualified item
+# name and each list name, what the loaded table says (item, LIST_VALUE, LIST_ALL, list-from-int).
+SCRIPT_L = [["GETVAR", "s"], ["GETVAR", "t"], ["CONT_MAX"], ["GETVAR", "s"], ["CHOOSE", 0], ["CONT_MAX"],
+            ["GETVAR", "s"], ["GETVAR", "t"], ["CHOOSE", 1], ["CONT_MAX"], ["GETVAR", "s"]]
+SCRIPT_P = [["CONT_MAX"]]
+LIST_PREFIXES = ("lgen:", "lreg:", "ldoc:", "lprobe:")
+
+# byte order / case-insensitive order / declaration order all differ on this pool
+LIST_NAMES = ["zoo", "apartment", "Mid", "kitchen", "Bag", "a", "z", "L2", "L10", "_x", "Zed", "b_1", "B"]
+ITEM_NAMES = ["cat", "dog", "fish", "key", "lamp", "one", "two", "up", "Dn"]
+
+
+def gen_list_decls(rng):
+    """[(list name, [(item, value, initially selected)])] — 2..4 lists in random order, items from one small pool"""
+    names = rng.sample(LIST_NAMES, rng.randint(2, 4))
+    pool = rng.sample(ITEM_NAMES, rng.randint(2, 5))
+    decls = []
+    for ln in names:
+        its = rng.sample(pool, rng.randint(1, min(4, len(pool))))
+        val, out = rng.choice([0, 0, 0, 1, 4]), []
+        for x in its:
+            val += 1 if rng.random() < 0.8 else rng.randint(2, 3)
+            out.append((x, val, rng.random() < 0.25))
+        decls.append((ln, out))
+    return decls
+
+
+def gen_list_program(rng):
+    """ink programs over several LISTs sharing item names: bare / qualified items as values, in list literals, as
+    operands of + - ? == LIST_VALUE LIST_ALL LIST_INVERT LIST_RANGE LIST_MIN LIST_MAX LIST_COUNT, list-from-int,
+    passed to functions (by value and by ref), in choice conditions and choice texts; globals s, t"""
+    decls = gen_list_decls(rng)
+    lines = []
+    for ln, its in decls:
+        shown, nxt = [], 1
+        for x, v, sel in its:
+            t = x if v == nxt else "%s = %d" % (x, v)
+            nxt = v + 1
+            shown.append("(" + t + ")" if sel else t)
+        lines.append("LIST %s = %s" % (ln, ", ".join(shown)))
+    bare = sorted({x for _, its in decls for x, _, _ in its})
+    full = [ln + "." + x for ln, its in decls for x, _, _ in its]
+    lnames = [ln for ln, _ in decls]
+
+    def item():
+        return rng.choice(bare) if rng.random() < 0.75 else rng.choice(full)
+
+    def lit():
+        k = rng.random()
+        if k < 0.15:
+            return "()"
+        if k < 0.7:
+            return item()
+        return "(" + ", ".join(sorted({item() for _ in range(rng.randint(2, 3))})) + ")"
+
+    def operand():
+        return rng.choice(["s", "t", item(), item(), rng.choice(lnames)])
+
+    def obs():
+        v = operand()
+        k = rng.randint(0, 13)
+        if k <= 1:
+            return "{%s}" % v
+        if k <= 3:
+            return "{LIST_ALL(%s)}" % v
+        if k == 4:
+            return "{LIST_VALUE(%s)}" % item()
+        if k == 5:
+            return "{LIST_INVERT(%s)}" % v
+        if k == 6:
+            return "{LIST_COUNT(LIST_ALL(%s))}" % v
+        if k == 7:
+            return "{LIST_MIN(LIST_ALL(%s))} {LIST_MAX(LIST_ALL(%s))}" % (v, v)
+        if k == 8:
+            return "{%s %s %s}" % (v, rng.choice(["?", "!?", "==", "!=", "<", ">="]), item())
+        if k == 9:
+            return "{%s(%d)}" % (rng.choice(lnames), rng.randint(0, 4))
+        if k == 10:
+            return "{LIST_RANGE(LIST_ALL(%s), %d, %d)}" % (v, rng.randint(0, 2), rng.randint(2, 5))
+        if k == 11:
+            return "{%s + %s}" % (v, item())
+        if k == 12:
+            return "{same(%s)}" % item()
+        return "{%s: yes|no}" % v
+
+    def stmt():
+        k = rng.random()
+        v = rng.choice(["s", "t"])
+        if k < 0.3:
+            return "~ %s = %s" % (v, lit())
+        if k < 0.45:
+            return "~ %s %s %s" % (v, rng.choice(["+=", "-="]), item())
+        if k < 0.55:
+            return "~ add(%s, %s)" % (v, item())
+        if k < 0.6:
+            return "~ %s = LIST_ALL(%s)" % (v, item())
+        return rng.choice(["now", "holds", "left"]) + " " + obs() + (" and " + obs() if rng.random() < 0.4 else "")
+
+    lines += ["VAR s = " + lit(), "VAR t = " + lit()]
+    lines += [stmt() for _ in range(rng.randint(3, 7))]
+    lines += ["* {LIST_ALL(%s) ? %s} [take %s]" % (item(), item(), obs()), "  " + stmt(),
+              "* {not (s ? %s)} other %s" % (item(), obs()), "  " + stmt(),
+              "* [third]", "  " + stmt(),
+              "- gathered", stmt(), stmt(),
+              "* [%s]" % obs(), "* again", "  " + stmt(),
+              "- s is {s}, t is {t}", "-> END",
+              "=== function add(ref l, x) ===", "~ l += x",
+              "=== function same(x) ===", "~ return x"]
+    return "\n".join(lines) + "\n"
+
+
+def list_value_token(decls, rng, nonempty=True):
+    its = [(ln, x, v) for ln, l in decls for x, v, _ in l]
+    if not nonempty and rng.random() < 0.3:
+        return {"list": {}, "origins": [rng.choice(decls)[0]]}
+    pick = rng.sample(its, rng.randint(1, min(3, len(its))))
+    return {"list": {ln + "." + x: v for ln, x, v in pick}}
+
+
+def gen_list_doc(rng):
+    """hand-written story document of the shape the compilers emit for LIST programs: listDefs in declaration
+    order (any order of names), `global decl` declaring one variable per list and the globals s and t, content
+    that reads bare and qualified item names through {"VAR?": name}; played by SCRIPT_L"""
+    decls = gen_list_decls(rng)
+    bare = sorted({x for _, its in decls for x, _, _ in its})
+    full = [ln + "." + x for ln, its in decls for x, _, _ in its]
+    lnames = [ln for ln, _ in decls]
+    item = lambda: {"VAR?": rng.choice(bare) if rng.random() < 0.75 else rng.choice(full)}
+    val = lambda: rng.choice([item(), item(), {"VAR?": "s"}, {"VAR?": "t"}, {"VAR?": rng.choice(lnames)},
+                              list_value_token(decls, rng)])
+    un = lambda: rng.choice(["LIST_ALL", "LIST_INVERT", "LIST_VALUE", "LIST_COUNT", "LIST_MIN", "LIST_MAX"])
+    bi = lambda: rng.choice(["+", "-", "?", "!?", "==", "!=", "L^", "<", ">="])
+    pieces = [
+        lambda: ["ev", item(), "out", "/ev", "\n"],
+        lambda: ["ev", val(), un(), "out", "/ev", "\n"],
+        lambda: ["ev", val(), "LIST_ALL", un(), "out", "/ev", "^ ", "ev", item(), "LIST_VALUE", "out", "/ev", "\n"],
+        lambda: ["ev", val(), val(), bi(), "out", "/ev", "\n"],
+        lambda: ["ev", item(), "/ev", {"VAR=": rng.choice("st"), "re": True}],
+        lambda: ["ev", {"VAR?": "s"}, item(), rng.choice(["+", "-"]), "/ev", {"VAR=": "s", "re": True}],
+        lambda: ["ev", "str", "^" + rng.choice(lnames), "/str", rng.randint(0, 4), "listInt", "out", "/ev", "\n"],
+        lambda: ["ev", val(), "LIST_ALL", rng.randint(0, 2), rng.randint(2, 5), "range", "out", "/ev", "\n"],
+        lambda: ["ev", {"VAR?": rng.choice("st")}, "out", "/ev", "\n"],
+    ]
+    content = []
+    for _ in range(rng.randint(3, 8)):
+        content += rng.choice(pieces)()
+    if rng.random() < 0.6:
+        content += ["ev", "str", "^take ", "ev", item(), "out", "/ev", "/str", item(), "LIST_ALL", item(), "?", "/ev",
+                    {"*": "0.c-0", "flg": 21},
+                    "ev", "str", "^other", "/str", "/ev", {"*": "0.c-1", "flg": 20},
+                    {"c-0": ["\n", "ev", {"VAR?": "s"}, "out", "/ev", "^ ", "ev", item(), "LIST_ALL", "out", "/ev", "\n",
+                             "done", {"#f": 5}],
+                     "c-1": ["\n", "ev", item(), "/ev", {"VAR=": "t", "re": True}, "ev", {"VAR?": "t"}, "LIST_ALL", "out",
+                             "/ev", "\n", "done", {"#f": 5}]}]
+    else:
+        content += ["done", None]
+    decl = ["ev"]
+    for ln, its in decls:
+        sel = {ln + "." + x: v for x, v, s in its if s}
+        decl += [{"list": sel} if sel else {"list": {}, "origins": [ln]}, {"VAR=": ln}]
+    decl += [rng.choice([item(), list_value_token(decls, rng, False)]), {"VAR=": "s"},
+             rng.choice([item(), list_value_token(decls, rng, False)]), {"VAR=": "t"}, "/ev", "end", None]
+    defs = {ln: {x: v for x, v, _ in its} for ln, its in decls}
+    doc = {"inkVersion": 21, "root": [content, "done", {"global decl": decl}], "listDefs": defs}
+    return json.dumps(doc, ensure_ascii=False, separators=(",", ":"))
+
+
+def list_probe_doc(text):
+    """the listDefs probe of a story document (None if it declares no list): same listDefs, content that prints
+    what every bare item name, every qualified item name and every list name denotes after loading"""
+    try:
+        defs = json.loads(text).get("listDefs")
+    except (ValueError, AttributeError):
+        return None
+    if not isinstance(defs, dict) or not defs or not all(isinstance(d, dict) for d in defs.values()):
+        return None
+    bare = []
+    for d in defs.values():
+        bare += [x for x in d if x not in bare]
+    names = bare + [ln + "." + x for ln, d in defs.items() for x in d]
+    if len(names) > 60:
+        names = names[:60]
+    content = []
+    for n in names:
+        content += ["^" + n + " = ", "ev", {"VAR?": n}, "out", "/ev", "^ ", "ev", {"VAR?": n}, "LIST_VALUE", "out", "/ev",
+                    "^ of ", "ev", {"VAR?": n}, "LIST_ALL", "out", "/ev", "\n"]
+    for ln, d in list(defs.items())[:12]:
+        vals = [v for v in d.values() if isinstance(v, int)]
+        for v in sorted(set(vals))[:4] + [max(vals + [0]) + 1]:
+            content += ["^%s(%d) = " % (ln, v), "ev", "str", "^" + ln, "/str", v, "listInt", "out", "/ev", "\n"]
+    content += ["done", None]
+    doc = {"inkVersion": 21, "root": [content, "done", None], "listDefs": defs}
+    return json.dumps(doc, ensure_ascii=False, separators=(",", ":"))
+
+
+def listdefs_order_sensitive(text, other_order=None):
+    """is the ORDER of the document's listDefs observable: does it hold a bare item name declared by several
+    lists?  With other_order (a function list-of-names -> list-of-names): ... such that the last list declaring
+    it in document order is not the last one in that other order."""
+    try:
+        defs = json.loads(text).get("listDefs")
+        names = list(defs)
+        other = other_order(names) if other_order else None
+        for x in {x for d in defs.values() for x in d}:
+            holders = [ln for ln in names if x in defs[ln]]
+            if len(holders) > 1 and (other is None or holders[-1] != [ln for ln in other if x in defs[ln]][-1]):
+                return True
+    except (ValueError, AttributeError, TypeError):
+        pass
+    return False
+
+
+# minimised forms of demonstrated divergences of this class (regression corpus; the generators reach the class)
+LIST_REGRESSION = [
+    ("shared-item-last-list-wins", "LIST zoo = cat, dog\nLIST apartment = dog, fish\nVAR s = cat\nVAR t = ()\n~ s = dog\n"
+                                   "{s} {LIST_VALUE(s)}\n{LIST_ALL(s)}\n~ t += dog\n{t == apartment.dog}\n-> END\n"),
+    ("shared-item-mixed-case-names", "LIST b = x, y\nLIST B = y, x\nLIST _a = (x), y\nLIST Z = y\nVAR s = y\nVAR t = x\n"
+                                     "{LIST_ALL(s)} {LIST_ALL(t)} {LIST_VALUE(x)}{LIST_VALUE(y)}\n-> END\n"),
+]
+
+
 def script_for(doc_id):
     base = doc_id.split("|")[0]
+    if base.startswith("lprobe:"):
+        return SCRIPT_P
+    if base.startswith(LIST_PREFIXES):
+        return SCRIPT_L
     if base.startswith(("mgen:", "mreg:", "mdoc:")):
         tail = base.rsplit(":", 1)[1]
         return SCRIPT_M2 if tail.isdigit() and int(tail) % 2 else SCRIPT_M
@@ -370,6 +613,14 @@ def documents(ctx, exe_d):
         inks.append(("mreg:%s:%d" % (name, i), src))
     for i in range(nmark):
         inks.append(("mgen:%d" % i, gen_marker_program(ctx.rng)))
+    # the list-definition class draws from its own stream (derived from the seed), so the documents above and
+    # below are the same as before for a given seed
+    lrng = random.Random("c14-listdefs-%d" % ctx.seed)
+    nlist = 40 if ctx.quick() else 400
+    for i, (name, src) in enumerate(LIST_REGRESSION):
+        inks.append(("lreg:%s:%d" % (name, i), src))
+    for i in range(nlist):
+        inks.append(("lgen:%d" % i, gen_list_program(lrng)))
     res = vlib.run_inkdrive([{"id": i, "ink": src, "want_json": True, "script": []} for i, src in inks], exe_d)
     ncompiled = 0
     for (i, src), r in zip(inks, res):
@@ -379,12 +630,23 @@ def documents(ctx, exe_d):
     if ctx.quick():
         ref = [d for d in docs if d[0].startswith("ref:")][::2]
         ours = [d for d in docs if d[0].startswith("ours:")][::2]
-        docs = ref + ours + [d for d in docs if d[0].startswith(("gen:", "mgen:", "mreg:"))]
+        docs = ref + ours + [d for d in docs if d[0].startswith(("gen:", "mgen:", "mreg:", "lgen:", "lreg:"))]
     for i in range(nmark):
         docs.append(("mdoc:%d" % i, gen_marker_doc(ctx.rng)))
-    out = []
+    for i in range(nlist):
+        docs.append(("ldoc:%d" % i, gen_list_doc(lrng)))
+    # the listDefs probe of every document that declares a list (corpus, compiled, generated, hand-written)
+    probes = []
     for i, t in docs:
+        if '"listDefs":{}' not in t[-40:]:
+            pd = list_probe_doc(t)
+            if pd is not None:
+                probes.append(("lprobe:" + i, pd))
+    out = []
+    for i, t in docs + probes:
         out.append((i, t))
+        if i.startswith("lprobe:"):
+            continue
         try:
             v = json.loads(t)
         except ValueError:
@@ -394,7 +656,9 @@ def documents(ctx, exe_d):
     stats = dict(compiled=ncompiled, ink_sources=len(inks),
                  marker_programs=sum(1 for i, _ in inks if i.startswith("mgen:")),
                  marker_programs_compiled=sum(1 for i, _ in docs if i.startswith("mgen:")),
-                 marker_documents=nmark)
+                 marker_documents=nmark,
+                 list_programs=nlist, list_programs_compiled=sum(1 for i, _ in docs if i.startswith("lgen:")),
+                 list_documents=nlist, listdefs_probes=len(probes))
     return out, stats, dict(inks)
 
 
@@ -461,6 +725,15 @@ def differential(ctx, exe_d, exe_s, facts):
                  marker_tokens_double_caret=sum(len(re.findall(r'"\^\^', t)) for t in mtok),
                  marker_docs_loaded_ok=sum(1 for (i, _), r in zip(docs, rd) if i.startswith("mdoc:") and "|" not in i
                                            and r.get("load") == "ok"))
+    ltexts = [(i, t) for i, t in docs if "|" not in i and not i.startswith("lprobe:") and '"listDefs":{}' not in t[-40:]]
+    stats["listdefs"] = dict(
+        documents_declaring_lists=len(ltexts),
+        with_shared_bare_item_name=sum(1 for _, t in ltexts if listdefs_order_sensitive(t)),
+        shared_and_document_order_differs_from_sorted=sum(1 for _, t in ltexts if listdefs_order_sensitive(t, sorted)),
+        shared_and_document_order_differs_from_reversed=sum(
+            1 for _, t in ltexts if listdefs_order_sensitive(t, lambda ns: ns[::-1])),
+        list_class_loaded_ok=sum(1 for (i, _), r in zip(docs, rd) if i.startswith(LIST_PREFIXES) and "|" not in i
+                                 and r.get("load") == "ok"))
     return fails, stats, docs, rd
 
 
@@ -486,6 +759,20 @@ def marker_model_tie(ctx, exe_d, docs, rd):
         mix = [k for pair in zip(a, b) for k in pair] + a[len(b):] + b[len(a):]
         return reg + mix[:n]
     idx = pick(idx, lim)
+
+    def pick_lists(ks, n):
+        """the list-definition class: regression programs, then generated programs / hand-written documents /
+        probes in turn, documents whose shared bare names make the order of listDefs observable first"""
+        ks = sorted(ks, key=lambda k: not listdefs_order_sensitive(docs[k][1]))       # stable
+        reg = [k for k in ks if docs[k][0].startswith("lreg:")]
+        cols = [[k for k in ks if docs[k][0].startswith(p)] for p in ("lgen:", "ldoc:", "lprobe:l", "lprobe:")]
+        cols[3] = [k for k in cols[3] if k not in cols[2]]
+        mix = []
+        for j in range(max(map(len, cols))):
+            mix += [c[j] for c in cols if j < len(c)]
+        return reg + mix[:n]
+    lks = [k for k, (i, t) in enumerate(docs) if i.startswith(LIST_PREFIXES) and "|" not in i and len(t) < 20000]
+    idx += pick_lists(lks, 12 if ctx.quick() else 300)
     mism, evals, stats = [], 0, dict(audit_compared=0, audit_objects=0, load_outcomes_compared=0)
     if not idx:
         return mism, evals, stats
@@ -532,7 +819,11 @@ def marker_model_tie(ctx, exe_d, docs, rd):
     try:
         import engine
         elim = 16 if ctx.quick() else 200
-        eidx = pick([k for k, _ in parsed if rd[k].get("load") == "ok"], elim)
+        eok = [k for k, _ in parsed if rd[k].get("load") == "ok"]
+        leidx = pick_lists([k for k in eok if docs[k][0].startswith(LIST_PREFIXES)], 10 if ctx.quick() else 150)
+        eidx = pick([k for k in eok if not docs[k][0].startswith(LIST_PREFIXES)], elim) + leidx
+        stats["engine_model_list_class"] = dict(
+            played=len(leidx), order_sensitive=sum(1 for k in leidx if listdefs_order_sensitive(docs[k][1])))
         ecases = [{"id": docs[k][0], "story": docs[k][1], "script": script_for(docs[k][0]), "fuel": 20000} for k in eidx]
         est = {}
         for r in engine.compare(ecases, exe=exe_d, shard=max(1, (len(ecases) + 3) // 4)):
@@ -676,6 +967,14 @@ def run(ctx):
              "tokens both loaders must reject; audit listing (one line per runtime object) and a play transcript "
              "(incl. GETVAR / EVAL of string globals) are diffed; the marker documents are also loaded by Json/StdLoad.v "
              "(audit lines vs the default build) and played by the engine model (transcript vs the default build); "
+             "plus the LIST-DEFINITION CLASS (listDefs is not a runtime object and its order is meaningful: a bare item "
+             "name shared by several LISTs denotes the item of the last list of the document): generated programs and "
+             "hand-written documents with 2-4 LISTs declared in arbitrary, mixed-case order over one small pool of item "
+             "names, items used bare and qualified as values / operands / arguments / in choice conditions, list "
+             "globals read back by GETVAR; and for EVERY document declaring a list a derived probe document printing what "
+             "each bare name, qualified name and list(int) denotes; these are diffed between the two builds and a sample "
+             "is loaded by Json/StdLoad.v and played by the engine model (Data/InkList.v single_item_cache: document "
+             "order, last list wins); "
              "(b) tokenizer model vs hook verif_tokenize on generated string literals / number literals / token "
              "sequences; (c) JsonStd.parse_json vs serde_json::from_str on generated and mutated texts, "
              "serde_string vs serde_json::to_string",
